@@ -34,7 +34,9 @@ type gen struct {
 }
 
 var plainNames = []string{"a", "b", "c", "d"}
-var specialNames = []string{"a b", "p%q", "h#h", "q?q", "s;s", "x+y", "q\"q", "<&>", "ü", ".dot", "...", "é.txt", "f.html", "t.txt", "j.json", "a:b", "w\\x", "x=y&z", "~t", "it's", "%41", "a%2fb", "日本", " lead", "trail ", ".webdav-upload-0", ".webdav-upload-a", ".webdav-upload-1"}
+var specialNames = []string{"a b", "p%q", "h#h", "q?q", "s;s", "x+y", "q\"q", "<&>", "ü", ".dot", "...", "é.txt", "f.html", "t.txt", "j.json", "a:b", "w\\x", "x=y&z", "~t", "it's", "%41", "a%2fb", "日本", " lead", "trail ", ".webdav-upload-0", ".webdav-upload-a", ".webdav-upload-1",
+	// names that collide only after some normalisation nobody asked for: case, Unicode composition, trailing dot
+	"A", "a.", "e\u0301.txt", "T.TXT", "\u212b", "\u00c5", "A\u030a"}
 
 var methods = []string{"OPTIONS", "GET", "HEAD", "PUT", "DELETE", "MKCOL", "COPY", "MOVE", "PROPFIND", "OTHER"}
 
